@@ -682,7 +682,10 @@ macro_rules! boolean_array_impl {
                 type Output = Self;
 
                 fn not(self) -> Self::Output {
-                    Self(self.0.not())
+                    let mut r = self.0.not();
+                    // keep the padding bits of the last byte zero
+                    r[$bits..].fill(false);
+                    Self(r)
                 }
             }
 
